@@ -535,9 +535,9 @@ func init() {
 		}
 		mal := c11Malformed(k)
 		if rep.Tier != "thorough" {
-			// quick: all single deviations, plus every pair that involves the subscriber identifier or the body shape
+			// quick: all single deviations, plus every pair that involves the subscriber identifier, the consumer identification or the triggers
 			for _, op := range c11Malformed(2) {
-				if strings.Count(op.Method, ",") == 1 && (strings.Contains(op.Method, "supi") || strings.Contains(op.Method, "nfConsumerIdentification")) && op.Ref == "" {
+				if strings.Count(op.Method, ",") == 1 && (strings.Contains(op.Method, "supi") || strings.Contains(op.Method, "nfConsumerIdentification") || strings.Contains(op.Method, "triggers")) && op.Ref == "" {
 					mal = append(mal, op)
 				}
 			}
@@ -550,7 +550,7 @@ func init() {
 				Alphabet: func(raw json.RawMessage, depth int) []Op {
 					if depth == 0 {
 						if len(pre) == 2 && rep.Tier != "thorough" {
-							return mal[:min(len(mal), 400)]
+							return mal[:min(len(mal), 1500)]
 						}
 						return mal
 					}
